@@ -86,27 +86,24 @@ FIXED_FILTERS = [
 
 def set_heights(spec, incs):
     """Edge lengths from node heights: leaf 0, internal = max(child heights) + inc/8.  incs: one int per internal node
-    in preorder.  All values are dyadic, so parent height = child height + length exactly."""
-    k = [0]
+    in preorder.  All values are dyadic, so parent height = child height + length exactly.  Iterative (deep trees)."""
+    nodes = shapes.spec_nodes(spec)  # preorder
+    inc_of = {}
+    k = 0
+    for s in nodes:
+        if s["ch"]:
+            inc_of[id(s)] = incs[k]
+            k += 1
     h = {}
-
-    def rec(s):
+    for s in reversed(nodes):  # children before parents
         if not s["ch"]:
             h[id(s)] = 0.0
-            return 0.0
-        inc = incs[k[0]]
-        k[0] += 1
-        hs = [rec(c) for c in s["ch"]]
-        h[id(s)] = max(hs) + inc / 8.0
-        return h[id(s)]
-    rec(spec)
-
-    def setlen(s):
+        else:
+            h[id(s)] = max(h[id(c)] for c in s["ch"]) + inc_of[id(s)] / 8.0
+    for s in nodes:
         for c in s["ch"]:
             c["len"] = h[id(s)] - h[id(c)]
-            setlen(c)
     spec["len"] = None
-    setlen(spec)
     return spec
 
 
@@ -224,11 +221,41 @@ def pass_set(fs, rt):
     raise runner.HarnessError(kind)
 
 
-def indexed_newick(rt):
-    def rec(i):
+def indexed_newick(rt, label=None):
+    """Newick string with preorder indices as labels (iterative); big trees are only described."""
+    n = len(rt.parent)
+    if n > 80:
+        arities = [len(c) for c in rt.children]
+        return "<%s: %d nodes, %d leaves, max arity %d>" % (label or "tree", n, sum(1 for a in arities if a == 0), max(arities))
+    out = []
+    stack = [(rt.root, 0)]
+    while stack:
+        i, k = stack.pop()
         ch = rt.children[i]
-        return ("(" + ",".join(rec(c) for c in ch) + ")" if ch else "") + str(i)
-    return rec(rt.root) + ";"
+        if k == 0 and ch:
+            out.append("(")
+        if k < len(ch):
+            if k:
+                out.append(",")
+            stack.append((i, k + 1))
+            stack.append((ch[k], 0))
+        else:
+            if ch:
+                out.append(")")
+            out.append(str(i))
+    return "".join(out) + ";"
+
+
+def brief(got, want):
+    """Both sequences, cut down to a window around the first difference when they are long."""
+    if not isinstance(got, list) or not isinstance(want, list) or max(len(got), len(want)) <= 40:
+        return "got %r want %r" % (got, want)
+    k = 0
+    while k < len(got) and k < len(want) and got[k] == want[k]:
+        k += 1
+    lo = max(0, k - 5)
+    return "lengths got %d want %d, first difference at position %d: got[%d:%d]=%r want[%d:%d]=%r" % (
+        len(got), len(want), k, lo, k + 10, got[lo:k + 10], lo, k + 10, want[lo:k + 10])
 
 
 # ---------------------------------------------------------------------------
@@ -238,7 +265,7 @@ def indexed_newick(rt):
 class Probe(object):
     """Everything needed to run iterators of one tree and compare them with index sequences."""
 
-    def __init__(self, ctx, tree, rt):
+    def __init__(self, ctx, tree, rt, label=None):
         self.ctx = ctx
         self.tree = tree
         self.rt = rt
@@ -246,12 +273,15 @@ class Probe(object):
         self.node_ix = dict((id(o), i) for i, o in enumerate(rt.obj))
         self.edge_ix = dict((id(o._edge), i) for i, o in enumerate(rt.obj))
         self.limit = 3 * self.n + 10
-        self.newick = indexed_newick(rt)
-        self.depth = [rt.depth_edges(i) for i in range(self.n)]
+        self.newick = indexed_newick(rt, label)
+        self.depth = [0] * self.n
+        for i in rt.preorder():
+            for c in rt.children[i]:
+                self.depth[c] = self.depth[i] + 1
         self.where = ""
 
     def detail(self, what, got, want):
-        return "%s on %s [%s]: got %r want %r" % (what, self.newick, self.where, got, want)
+        return "%s on %s [%s]: %s" % (what, self.newick, self.where, brief(got, want))
 
     def mkfilter(self, fs, P, edges):
         """(callable or None, list collecting arguments of the wrong kind)."""
@@ -304,17 +334,25 @@ class Probe(object):
 
 
 def check_tree(ctx, spec, starts, filters, precalc=False, all_apply=True):
-    import dendropy  # noqa
+    """Build the tree of a (small) spec and run every iterator on it."""
     want_rt = RefTree.from_spec(spec)
     tree = shapes.build_tree(spec)
     rt, problems = snapshot(tree)
     if problems or rt.canon(ordered=True, lengths=True) != want_rt.canon(ordered=True, lengths=True):
         raise runner.HarnessError("built tree does not match its spec: %r" % (problems,))
-    pr = Probe(ctx, tree, rt)
+    return check_built(ctx, tree, rt, starts, filters, precalc=precalc, all_apply=all_apply)
+
+
+def check_built(ctx, tree, rt, starts, filters, precalc=False, all_apply=True, ages=True, inorder=True, label=None):
+    """Every iterator / collection method of `tree` against the reference traversals of its snapshot `rt`.
+
+    ages=False: age-order is skipped (lengths not ultrametric, or cached ages stale and nothing documented recomputes
+    them).  inorder=False: in-order is skipped (the library's in-order is recursive; very deep trees)."""
+    pr = Probe(ctx, tree, rt, label)
     n = pr.n
     obj = rt.obj
     root = rt.root
-    height = ref_heights(rt)
+    height = ref_heights(rt) if ages else None
     isleaf = [not rt.children[i] for i in range(n)]
     nleaves = sum(isleaf)
     psets = [None] + [pass_set(fs, rt) for fs in filters]
@@ -356,6 +394,8 @@ def check_tree(ctx, spec, starts, filters, precalc=False, all_apply=True):
                       "C15.%s:filtered_subsequence" % name, lambda: pr.detail(name, got, filt(unfiltered, P)))
 
     def check_inorder(name, thunk, s, P, bad, edges=False):
+        if not inorder:
+            return
         want = ref_inorder(rt, s)
         if want is not None:
             got = pr.run(name, thunk, edges=edges)
@@ -376,12 +416,12 @@ def check_tree(ctx, spec, starts, filters, precalc=False, all_apply=True):
     ints_pre = [i for i in pre_all if not isleaf[i]]
     ints_post = [i for i in post_all if not isleaf[i]]
 
-    if precalc:
+    if precalc and ages:
         ctx.call("C15.exception:calc_node_ages", tree.calc_node_ages)
 
     # age-order first (the unfiltered call on a fresh tree computes the ages itself when precalc is False)
     age_unf = {}
-    for il in (True, False):
+    for il in ((True, False) if ages else ()):
         for desc in (False, True):
             for fs, P in zip(fspecs, psets):
                 pr.where = "Tree, %s, include_leaves=%r descending=%r" % (ftag(fs), il, desc)
@@ -392,7 +432,7 @@ def check_tree(ctx, spec, starts, filters, precalc=False, all_apply=True):
                 if fs is None:
                     age_unf[(il, desc)] = got
     # calc_node_ages must have produced exactly our heights (harness sanity for the node-level age checks)
-    for i in range(n):
+    for i in (range(n) if ages else ()):
         if obj[i].age != height[i]:
             pr.where = "Tree, after ageorder_node_iter%s" % (" preceded by calc_node_ages()" if precalc else "")
             ctx.fail("ages_of_exactly_ultrametric_tree", "C15.ages", pr.detail("node %d age" % i, obj[i].age, height[i]))
@@ -470,9 +510,10 @@ def check_tree(ctx, spec, starts, filters, precalc=False, all_apply=True):
         check_level("tree_level_order_edge", got, root, P, lvl_edge_unf, bad)
         f, bad = pr.mkfilter(fs, P, False)
         pr.expect("tree_leaf_iter", pr.run("tree_leaf_iter", lambda: tree.leaf_iter(filter_fn=f)), filt(leaves_all, P), bad=bad)
-        f, bad = pr.mkfilter(fs, P, False)
-        got = pr.run("tree_age_order_node", lambda: tree.age_order_node_iter(include_leaves=False, filter_fn=f, descending=True))
-        check_age("tree_age_order_node", got, root, P, False, True, age_unf[(False, True)], bad)
+        if ages:
+            f, bad = pr.mkfilter(fs, P, False)
+            got = pr.run("tree_age_order_node", lambda: tree.age_order_node_iter(include_leaves=False, filter_fn=f, descending=True))
+            check_age("tree_age_order_node", got, root, P, False, True, age_unf[(False, True)], bad)
 
     # Tree.apply
     check_apply(ctx, pr, rt, tree.apply, root, "tree_apply", all_apply)
@@ -534,7 +575,7 @@ def check_tree(ctx, spec, starts, filters, precalc=False, all_apply=True):
                 nlvl_unf = got
             f, bad = pr.mkfilter(fs, P, False)
             check_inorder("node_inorder", lambda: nd.inorder_iter(filter_fn=f), s, P, bad)
-            for il in (True, False):
+            for il in ((True, False) if ages else ()):
                 for desc in (False, True):
                     pr.where = "Node %d, %s, include_leaves=%r descending=%r" % (s, ftag(fs), il, desc)
                     f, bad = pr.mkfilter(fs, P, False)
@@ -549,9 +590,10 @@ def check_tree(ctx, spec, starts, filters, precalc=False, all_apply=True):
             f, bad = pr.mkfilter(fs, P, False)
             got = pr.run("node_level_order", lambda: nd.level_order_iter(filter_fn=f))
             check_level("node_level_order", got, s, P, nlvl_unf, bad)
-            f, bad = pr.mkfilter(fs, P, False)
-            got = pr.run("node_age_order", lambda: nd.age_order_iter(include_leaves=True, filter_fn=f, descending=False))
-            check_age("node_age_order", got, s, P, True, False, nage_unf[(True, False)], bad)
+            if ages:
+                f, bad = pr.mkfilter(fs, P, False)
+                got = pr.run("node_age_order", lambda: nd.age_order_iter(include_leaves=True, filter_fn=f, descending=False))
+                check_age("node_age_order", got, s, P, True, False, nage_unf[(True, False)], bad)
         check_apply(ctx, pr, rt, nd.apply, s, "node_apply", all_apply)
 
     # ---------------- classes ----------------
@@ -566,11 +608,12 @@ def check_tree(ctx, spec, starts, filters, precalc=False, all_apply=True):
         ctx.cls("shape:polytomy>=5")
     if any(a == 1 for a in arities):
         ctx.cls("shape:has_unifurcation")
-    hs = [height[i] for i in range(n) if not isleaf[i]]
-    if len(set(hs)) < len(hs):
-        ctx.cls("age:tie_between_internal_nodes")
-    if any(not isleaf[i] and height[i] == 0.0 for i in range(n)):
-        ctx.cls("age:internal_node_of_age_0")
+    if ages:
+        hs = [height[i] for i in range(n) if not isleaf[i]]
+        if len(set(hs)) < len(hs):
+            ctx.cls("age:tie_between_internal_nodes")
+        if any(not isleaf[i] and height[i] == 0.0 for i in range(n)):
+            ctx.cls("age:internal_node_of_age_0")
     for fs in filters:
         ctx.cls("filter:%s" % fs["kind"])
         ctx.cls("filter_values:%r/%r" % (TRUTHY[fs["tv"]], FALSY[fs["fv"]]))
@@ -677,7 +720,295 @@ def check_exh(ctx, item):
     ctx.sample("exhaustive", {"tree_with_preorder_indices": pr.newick, "item": item})
 
 
-SUBCHECKS = {"random": check_case, "exhaustive": check_exh}
+# ---------------------------------------------------------------------------
+# histories: caches filled, then the tree restructured through public calls that do not refresh them
+# ---------------------------------------------------------------------------
+
+CACHES = ["encode", "ages", "rootdist"]
+HOPS = ["new_child", "remove_child", "prune_taxa", "reroot", "prune_subtree", "set_length"]
+
+
+@st.composite
+def history_cases(draw, max_leaves):
+    spec = draw(shapes.shapes(min_leaves=3, max_leaves=max_leaves, max_arity=5, unifurcations=True))
+    m = sum(1 for s in shapes.spec_nodes(spec) if s["ch"])
+    set_heights(spec, draw(st.lists(st.sampled_from([1, 1, 2, 3, 8]), min_size=m, max_size=m)))
+    ops = draw(st.lists(st.fixed_dictionaries({"op": st.sampled_from(HOPS + ["new_child", "remove_child", "prune_taxa"]),
+                                               "target": st.integers(0, 10 ** 6), "k": st.integers(0, 63)}),
+                        min_size=0, max_size=3))
+    return {"spec": spec, "rooted": draw(st.sampled_from([True, False, None])),
+            "caches": draw(st.lists(st.sampled_from(CACHES), min_size=1, max_size=3, unique=True)),
+            "ops": ops, "recalc": draw(st.booleans()),
+            "starts": draw(st.lists(st.integers(0, 10 ** 6), min_size=3, max_size=3)),
+            "filters": draw(st.lists(filter_specs(), min_size=1, max_size=1))}
+
+
+def apply_history_op(ctx, tree, rt, op, counter):
+    """One public restructuring call chosen on the current snapshot rt; none of them refreshes cached bipartitions,
+    ages or root distances (default flags).  Returns a short description or None when the op has no valid target."""
+    n = len(rt.parent)
+    nodes = rt.preorder()
+    root = rt.root
+    name, target, k = op["op"], op["target"], op["k"]
+    if name == "new_child":
+        i = nodes[target % n]
+        counter[0] += 1
+        taxon = tree.taxon_namespace.require_taxon(label="N%d" % counter[0])
+        if k % 2:
+            rt.obj[i].new_child(taxon=taxon, edge_length=(k % 8) / 8.0)
+        else:
+            rt.obj[i].insert_new_child(0, taxon=taxon, edge_length=(k % 8) / 8.0)
+        return "new_child@%d" % i
+    if name in ("remove_child", "prune_subtree"):
+        cand = [i for i in nodes if i != root and len(rt.children[rt.parent[i]]) >= 2]
+        if not cand:
+            return None
+        i = cand[target % len(cand)]
+        if name == "remove_child":
+            rt.obj[rt.parent[i]].remove_child(rt.obj[i])
+        else:
+            tree.prune_subtree(rt.obj[i])
+        return "%s@%d" % (name, i)
+    if name == "prune_taxa":
+        labs = [rt.taxon[i] for i in nodes if not rt.children[i] and rt.taxon[i] is not None]
+        if len(labs) < 3:
+            return None
+        cnt = 1 + k % (len(labs) - 2)
+        off = target % len(labs)
+        picked = [labs[(off + j) % len(labs)] for j in range(cnt)]
+        tree.prune_taxa_with_labels(picked)
+        return "prune_taxa_with_labels(%d of %d)" % (cnt, len(labs))
+    if name == "reroot":
+        cand = [i for i in nodes if i != root and rt.children[i]]
+        if not cand or len(rt.children[root]) < 2:
+            return None
+        i = cand[target % len(cand)]
+        tree.reroot_at_node(rt.obj[i])
+        return "reroot_at_node@%d" % i
+    if name == "set_length":
+        i = nodes[target % n]
+        rt.obj[i].edge.length = k / 8.0
+        return "set_length@%d" % i
+    raise runner.HarnessError(name)
+
+
+def check_history(ctx, case):
+    spec = shapes.copy_spec(case["spec"])
+    tree = shapes.build_tree(spec, is_rooted=case["rooted"])
+    rt, problems = snapshot(tree)
+    if problems:
+        raise runner.HarnessError("built tree not well formed: %r" % problems)
+    done = []
+    # 1. fill caches (per-tree bipartition encoding, per-node ages / root distances)
+    for c in case["caches"]:
+        try:
+            if c == "encode":
+                tree.encode_bipartitions()
+            elif c == "ages":
+                tree.calc_node_ages()
+            elif c == "rootdist":
+                tree.calc_node_root_distances()
+            else:
+                raise runner.HarnessError(c)
+        except runner.HarnessError:
+            raise
+        except Exception as e:  # not this property's business; the traversals are still checked below
+            ctx.cls("history:cache_step_raised:%s:%s" % (c, type(e).__name__))
+            continue
+        done.append(c)
+    # 2. restructure without refreshing anything
+    counter = [0]
+    for op in case["ops"]:
+        rt, problems = snapshot(tree)
+        if problems:
+            ctx.cls("history:malformed_tree_abandoned")
+            return
+        try:
+            what = apply_history_op(ctx, tree, rt, op, counter)
+        except runner.HarnessError:
+            raise
+        except Exception as e:
+            ctx.cls("history:op_raised:%s:%s" % (op["op"], type(e).__name__))
+            continue
+        if what is None:
+            ctx.cls("history:op_without_target:" + op["op"])
+        else:
+            ctx.cls("history:op:" + op["op"])
+            done.append(what)
+    rt, problems = snapshot(tree)
+    if problems:
+        ctx.cls("history:malformed_tree_abandoned")
+        return
+    n = len(rt.parent)
+    # 3. ages: only documented to be current after an explicit calc_node_ages() on an ultrametric tree
+    ages = bool(case["recalc"])
+    if ages:
+        h = {}
+        for i in rt.postorder():
+            h[i] = 1.0 + max(h[c] for c in rt.children[i]) if rt.children[i] else 0.0
+        for i in rt.preorder():
+            if i != rt.root:
+                rt.obj[i].edge.length = h[rt.parent[i]] - h[i]
+        rt, problems = snapshot(tree)
+        done.append("ultrametric lengths + calc_node_ages")
+    if n <= 8:
+        starts = list(range(n))
+    else:
+        starts = sorted(set([0] + [x % n for x in case["starts"]]))
+    label = "history " + " -> ".join(done)
+    rt, pr = check_built(ctx, tree, rt, starts, case["filters"], precalc=True, all_apply=False, ages=ages, label=label)
+    pr_desc = "%s after %s" % (pr.newick, label)
+    if case["ops"] and n >= 3:
+        ctx.nontrivial([RefTree.from_spec(spec).canon(ordered=True), case["rooted"], case["caches"], case["ops"], ages])
+    for c in case["caches"]:
+        ctx.cls("history:cache:" + c)
+    ctx.cls("history:ages_%s" % ("recomputed" if ages else "stale_skipped"))
+    ctx.sample("history", {"result": pr_desc, "caches": case["caches"], "ops": case["ops"]})
+
+
+def history_items(maxn):
+    items = []
+    for n in range(3, maxn + 1):
+        for idx, spec in enumerate(all_ordered_shapes(n)):
+            nn = len(shapes.spec_nodes(spec))
+            for caches in (["encode"], ["ages", "rootdist"], ["encode", "ages", "rootdist"]):
+                for op in ("new_child", "remove_child", "prune_taxa", "reroot", "prune_subtree"):
+                    for tg in range(nn):
+                        items.append({"n": n, "idx": idx, "caches": caches, "op": op, "target": tg})
+    return items
+
+
+def check_history_exh(ctx, item):
+    n = item["n"]
+    if n not in _SHAPES:
+        _SHAPES[n] = list(all_ordered_shapes(n))
+    spec = shapes.copy_spec(_SHAPES[n][item["idx"]])
+    m = sum(1 for s in shapes.spec_nodes(spec) if s["ch"])
+    set_heights(spec, [8] * m)
+    tg = item["target"]
+    check_history(ctx, {"spec": spec, "rooted": [True, False, None][(item["idx"] + tg) % 3], "caches": item["caches"],
+                        "ops": [{"op": item["op"], "target": tg, "k": tg}], "recalc": bool((item["idx"] + tg) % 2),
+                        "starts": [0, 1, 2], "filters": [FIXED_FILTERS[tg % len(FIXED_FILTERS)]]})
+
+
+# ---------------------------------------------------------------------------
+# large trees (size-triggered behaviour): deterministic list
+# ---------------------------------------------------------------------------
+
+LARGE_FAMILIES = ["caterpillar", "balanced", "star", "random", "bushy"]
+
+
+def large_spec(family, n_nodes, seed):
+    """A spec with exactly n_nodes nodes, built without recursion.  Randomness only from `seed`."""
+    import random
+    mk_leaf = shapes.leaf
+    counter = [0]
+
+    def leaf():
+        counter[0] += 1
+        return mk_leaf(counter[0] - 1)
+    if family == "star":
+        return shapes.internal([leaf() for _ in range(n_nodes - 1)])
+    if family in ("caterpillar", "balanced"):
+        nl = (n_nodes + 1) // 2          # 2*nl - 1 nodes, one unifurcation more when n_nodes is even
+        if family == "caterpillar":
+            cur = leaf()
+            for j in range(nl - 1):
+                cur = shapes.internal([cur, leaf()] if j % 3 else [leaf(), cur])
+        else:
+            level = [leaf() for _ in range(nl)]
+            while len(level) > 1:
+                nxt = [shapes.internal([level[j], level[j + 1]]) for j in range(0, len(level) - 1, 2)]
+                if len(level) % 2:
+                    nxt.append(level[-1])
+                level = nxt
+            cur = level[0]
+        if n_nodes % 2 == 0:
+            cur = shapes.internal([cur])
+        return cur
+    rng = random.Random(seed)
+    root = {"t": None, "lab": None, "len": None, "ch": []}
+    nodes = [root]
+    if family == "random":               # random recursive tree: mixed arities, unifurcations, depth ~ log n
+        for _ in range(n_nodes - 1):
+            c = {"t": None, "lab": None, "len": None, "ch": []}
+            rng.choice(nodes)["ch"].append(c)
+            nodes.append(c)
+    elif family == "bushy":              # children in blocks of 1-40: wide levels at moderate depth
+        frontier = [root]
+        left = n_nodes - 1
+        while left > 0:
+            par = frontier.pop(0) if rng.random() < 0.7 else frontier.pop(rng.randrange(len(frontier)))
+            k = min(left, rng.choice([1, 2, 2, 3, 5, 40]))
+            for _ in range(k):
+                c = {"t": None, "lab": None, "len": None, "ch": []}
+                par["ch"].append(c)
+                nodes.append(c)
+                frontier.append(c)
+            left -= k
+    else:
+        raise runner.HarnessError(family)
+    for s in nodes:
+        if not s["ch"]:
+            s["t"] = counter[0]
+            counter[0] += 1
+    return root
+
+
+def large_items(tier):
+    sizes = [1100, 2050, 5000]
+    around = [1023, 1024, 1025, 1026, 1027, 1028, 2047, 2048, 2049, 2050, 2051]
+    items = []
+    for fam in LARGE_FAMILIES:
+        for nn in sizes + ([20000] if tier == "thorough" and fam != "caterpillar" else []):
+            items.append({"family": fam, "nodes": nn, "seed": nn})
+    for j, nn in enumerate(around):
+        for fam in LARGE_FAMILIES:
+            if tier == "thorough" or (j + LARGE_FAMILIES.index(fam)) % 2 == 0 or fam == "star":
+                items.append({"family": fam, "nodes": nn, "seed": 7 * nn + 1})
+    # interleave heavy and light items over the shards
+    items.sort(key=lambda it: -it["nodes"])
+    return items
+
+
+LARGE_FILTER = {"kind": "parity", "p": 1, "mask": 0, "tv": 1, "fv": 3}
+
+
+def check_large(ctx, item):
+    spec = large_spec(item["family"], item["nodes"], item["seed"])
+    m = sum(1 for s in shapes.spec_nodes(spec) if s["ch"])
+    set_heights(spec, [8] * m)
+    tree = shapes.build_tree(spec)
+    rt, problems = snapshot(tree)
+    n = len(rt.parent)
+    if problems or n != item["nodes"]:
+        raise runner.HarnessError("large tree: %d nodes built for %r, problems %r" % (n, item, problems))
+    label = "%s tree" % item["family"]
+    pr0 = Probe(ctx, tree, rt, label)
+    depth = max(pr0.depth)
+    kids = rt.children[rt.root]
+    # start nodes: seed, its biggest child subtree, a node in the middle of the preorder, the last node
+    size = [1] * n
+    for i in reversed(rt.preorder()):
+        if rt.parent[i] is not None:
+            size[rt.parent[i]] += size[i]
+    starts = [0]
+    if kids:
+        starts.append(max(kids, key=lambda c: size[c]))
+    starts += [n // 2, n - 1]
+    starts = sorted(set(starts))
+    rt, pr = check_built(ctx, tree, rt, starts, [LARGE_FILTER], precalc=bool(item["nodes"] % 2), all_apply=False,
+                         ages=True, inorder=depth <= 100, label=label)
+    ctx.nontrivial(["large", item["family"], item["nodes"], item["seed"]])
+    ctx.cls("large:%s" % item["family"])
+    ctx.cls("large:depth%s" % ("<=100" if depth <= 100 else ">100 (in-order skipped)"))
+    ctx.cls("large:subtree_below_2nd_start>1025" if len(starts) > 1 and size[starts[1]] > 1026 else "large:subtree_below_2nd_start<=1025")
+    ctx.sample("large", {"tree": pr.newick, "item": item, "depth": depth, "starts": starts})
+
+
+SUBCHECKS = {"random": check_case, "exhaustive": check_exh, "history": check_history, "history_exhaustive": check_history_exh,
+             "large": check_large}
+
 
 
 def run(ctx):
@@ -685,3 +1016,6 @@ def run(ctx):
     total = 3000 if quick else 50000
     runner.run_given(ctx, "random", cases(10 if quick else 30), check_case, total // ctx.nshards)
     runner.run_items(ctx, "exhaustive", exhaustive_items(5 if quick else 6), check_exh)
+    runner.run_given(ctx, "history", history_cases(8 if quick else 20), check_history, (600 if quick else 12000) // ctx.nshards)
+    runner.run_items(ctx, "history_exhaustive", history_items(4 if quick else 5), check_history_exh)
+    runner.run_items(ctx, "large", large_items(ctx.tier), check_large)
